@@ -64,7 +64,7 @@ type Spec struct {
 
 // Op is one edit of a batch.
 type Op struct {
-	Op   string `json:"op"` // write replace chmod create remove rename touch swapdir
+	Op   string `json:"op"` // write replace replacekeep chmod create remove rename touch swapdir
 	Path HS     `json:"p"`
 	To   HS     `json:"to,omitempty"`
 	Data HS     `json:"d,omitempty"`
@@ -186,6 +186,21 @@ func (b *builder) apply(root string, op Op) error {
 		}
 		syscall.Chmod(tmp, uint32(st.Mode().Perm()))
 		b.stamp(tmp)
+		return os.Rename(tmp, p)
+	case "replacekeep": // new inode with the old size and the old mtime, other content
+		var st syscall.Stat_t
+		if err := syscall.Lstat(p, &st); err != nil {
+			return err
+		}
+		tmp := p + ".verif-new"
+		if err := os.WriteFile(tmp, []byte(op.Data), 0o600); err != nil {
+			return err
+		}
+		syscall.Chmod(tmp, st.Mode&0o7777)
+		t := time.Unix(st.Mtim.Sec, st.Mtim.Nsec)
+		if err := os.Chtimes(tmp, t, t); err != nil {
+			return err
+		}
 		return os.Rename(tmp, p)
 	case "chmod":
 		return syscall.Chmod(p, op.Mode)
@@ -794,7 +809,15 @@ func (g *gen) batch(root string) (Batch, error) {
 				continue
 			}
 			touched[p] = true
-			bt.Ops = append(bt.Ops, Op{Op: "replace", Path: HS(p), Data: HS(g.content())})
+			old, err := os.ReadFile(rel(root, HS(p)))
+			if err == nil && len(old) > 0 && g.r.Intn(2) == 0 {
+				// same size, same mtime, new inode: only the file id tells
+				nd := append([]byte{}, old...)
+				nd[g.r.Intn(len(nd))] ^= 0x5a
+				bt.Ops = append(bt.Ops, Op{Op: "replacekeep", Path: HS(p), Data: HS(nd)})
+			} else {
+				bt.Ops = append(bt.Ops, Op{Op: "replace", Path: HS(p), Data: HS(g.content())})
+			}
 			bt.Recheck = append(bt.Recheck, HS(p))
 		case x < 4 && len(files) > 0:
 			p := g.pick(files)
@@ -951,7 +974,7 @@ func main() {
 	if *prop == "C12" {
 		w.Rule = "a case = one real directory tree (independent lstat/readlink/read walk), the digest and ignore tables, and the results of core.Scan under 3 configurations drawn from 3 symlink modes x 2 permissions modes (one of them with executability preservation forced off through the behaviour cache); distinct = distinct Coq terms; non-trivial = at least 4 filesystem objects"
 	} else {
-		w.Rule = "a case = one real directory tree, one configuration, 1-3 random edit batches (write/replace/chmod/touch/create/remove/retype/rename/empty-directory swap) each followed by core.Scan with the previous result as baseline + recheck paths and by a fresh core.Scan; non-trivial = at least one batch and at least 4 objects"
+		w.Rule = "a case = one real directory tree, one configuration, 1-3 random edit batches (write/replace/replace keeping size and mtime/chmod/touch/create/remove/retype/rename/empty-directory swap) each followed by core.Scan with the previous result as baseline + recheck paths and by a fresh core.Scan; non-trivial = at least one batch and at least 4 objects"
 	}
 	add := func(c Case, origin string) {
 		if w.Aborted {
